@@ -39,7 +39,7 @@ def finalize(agg, tier):
                     out.append("suite/mode never exercised: %s aead=%d %s" % (cv, a, m))
     for n in ("enc_compared", "sealed_compared", "offered_genuine", "offered_corrupted", "offered_replayed", "offered_out_of_order",
               "recovered_after_rejection", "setup_errors_refused", "mismatched_receivers_rejected", "ephemeral_keys_captured",
-              "aead_id_given_as:int", "aead_id_given_as:enum"):
+              "aead_id_given_as:int", "aead_id_given_as:enum", "sender_key_is_recipient_key"):
         if not c.get(n):
             out.append("deciding counter %s is zero" % n)
     return out
@@ -101,6 +101,10 @@ def make_exchange(ctx, M, HPKE, ECC, cap, rng, curve, aead, mode, info=None, psk
     """Set up sender (library) + model sender; returns dict or None when set-up disagreed."""
     rk = ECC.generate(curve=LIBNAME[curve])
     sk = ECC.generate(curve=LIBNAME[curve]) if mode in ("auth", "auth_psk") else None
+    if sk is not None and rng.random() < 0.15:
+        # a party that seals an authenticated message to itself: sender key pair = recipient key pair (RFC 9180 allows it)
+        sk = rk if rng.random() < 0.5 else ECC.import_key(rk.export_key(format="DER"))
+        ctx.count("sender_key_is_recipient_key")
     if info is None:
         info = rng.randbytes(_len(rng))
     if psk_pair is None and mode in ("psk", "auth_psk"):
@@ -116,7 +120,14 @@ def make_exchange(ctx, M, HPKE, ECC, cap, rng, curve, aead, mode, info=None, psk
     if sk:
         kw["sender_key"] = sk
     del cap.keys[:]
-    snd = HPKE.new(**kw)
+    try:
+        snd = HPKE.new(**kw)
+    except Exception as e:      # noqa
+        ctx.check(False, "hpke:valid-setup-refused:%s:%s" % (mode, type(e).__name__),
+                  "HPKE.new() refused a sender set-up that RFC 9180 defines (valid keys, mode and PSK inputs)",
+                  {"curve": curve, "aead": aead, "mode": mode, "sender_key_is_recipient_key": bool(sk is not None and sk.pointQ == rk.pointQ),
+                   "exc": repr(e)[:200]})
+        return None
     if len(cap.keys) != 1:
         ctx.inconclusive_reason("could not capture the ephemeral key (HPKE.ECC.generate called %d times)" % len(cap.keys))
         return None
